@@ -673,7 +673,11 @@ func (w *l1World) genClaim(spec *modelL1, bc blockCtx) (sdk.Msg, string) {
 	}
 	var tags []string
 	for k := 0; k < np; k++ {
-		switch w.r.Intn(23) {
+		pick := w.r.Intn(23)
+		if spec.Bal.get(prover.Escrow(b.ID), msg.Amount.Denom).BitLen() > 64 && w.r.Chance(1, 3) {
+			pick = 10 // the escrow could afford amount + 2^64: aim there
+		}
+		switch pick {
 		case 21:
 			// a fixed-size field one or more bytes too long / one byte short (the commitment is over exactly 1+32+32 bytes)
 			ext := func(bz []byte) []byte {
